@@ -28,6 +28,20 @@ fn main() {
             let path = args.get(2).unwrap_or_else(|| usage());
             std::process::exit(xsim::report::replay(path))
         }
+        Some("job") => {
+            install_panic_hook();
+            let spec: JobSpec = serde_json::from_str(args.get(2).unwrap_or_else(|| usage())).unwrap_or_else(|e| { eprintln!("{e}"); usage() });
+            let h = std::thread::Builder::new().stack_size(1 << 30).spawn(move || xsim::job::run_job(&spec, &mut |_| {})).unwrap();
+            let r = h.join().unwrap();
+            println!("runs={} tuples={} notes={:?}", r.runs, r.tuples.len(), r.notes);
+            println!("counters: fault_points={:?} alloc_fail={:?} preflight_fail={:?}", r.counters.get("fault_points"), r.counters.get("alloc_fail"), r.counters.get("preflight_fail"));
+            for v in &r.violations {
+                println!("VIOLATION {} | {} | {}", v.class, v.signature, v.detail.chars().take(300).collect::<String>());
+            }
+            for t in r.tuples.iter().take(12) {
+                println!("  tuple {t}");
+            }
+        }
         Some("locate") => {
             install_panic_hook();
             let idx: usize = args.get(2).and_then(|s| s.parse().ok()).unwrap_or_else(|| usage());
